@@ -99,6 +99,9 @@ func scenarios(tier string) []vlib.Scenario {
 		add(params{Kind: "e", Streams: "up+down", InFlight: f, F: 0, During: true})
 	}
 	add(params{Kind: "e", Streams: "up+down", InFlight: "meta", F: 1, During: true})
+	// a metadata item is already queued in the downstream when the link dies; it is read during the outage
+	add(params{Kind: "e", Streams: "down", InFlight: "readmeta", F: 0, During: true})
+	add(params{Kind: "e", Streams: "up+down", InFlight: "readmeta", F: 0, P: 1, During: true})
 	add(params{Kind: "e", Streams: "up+down", InFlight: "openup", F: 0, P: 1, During: true})
 	add(params{Kind: "e", Streams: "up", InFlight: "meta", F: 1, P: 1})
 	add(params{Kind: "e", Streams: "up", InFlight: "call", F: 1, P: 1})
@@ -344,6 +347,12 @@ func (w *world) main() {
 			w.B.Cut(c)
 		}
 	} else {
+		if w.p.During && w.p.InFlight == "readmeta" {
+			if c := w.B.Live(); c != nil && len(w.B.Downs) > 0 {
+				w.B.Send(c, &message.DownstreamMetadata{RequestID: 7001, StreamIDAlias: w.B.Downs[0].Alias, SourceNodeID: "src", Metadata: &message.BaseTime{SessionID: "s", Name: "queued"}})
+				vsched.Quiesce()
+			}
+		}
 		if w.p.During {
 			if c := w.B.Live(); c != nil {
 				w.cuts++
@@ -472,6 +481,23 @@ func (w *world) inflight(ctx context.Context) {
 			return
 		}
 		w.inflErr = u.U.Flush(ctx)
+	case "readmeta":
+		// the item is handed out by this read, or (if this read fails because of the outage) by a read after the recovery
+		rctx, rcancel := kit.Ctx(2 * time.Second)
+		m, err := w.Downs[0].D.ReadMetadata(rctx)
+		rcancel()
+		w.inflErr = err
+		for try := 0; m == nil && try < 2; try++ {
+			vsched.Sleep(6*time.Second, "h:read-again-after-recovery")
+			rctx, rcancel = kit.Ctx(2 * time.Second)
+			m, err = w.Downs[0].D.ReadMetadata(rctx)
+			rcancel()
+		}
+		if m != nil {
+			if bt, ok := m.Metadata.(*message.BaseTime); ok {
+				w.readRes = bt.Name
+			}
+		}
 	case "read":
 		ch, err := w.Downs[0].D.ReadDataPoints(ctx)
 		w.inflErr = err
@@ -623,6 +649,10 @@ func run(sc vlib.Scenario, cfg vsched.Config) (*vsched.Result, vlib.Verdict) {
 				}
 				if !found {
 					v.Fail("C05.inflight", "call/dropped", "SendCall returned nil but the broker never received call %q", w.callID)
+				}
+			case "readmeta":
+				if w.readRes != "queued" && !kit.ReportedClosed(w.Downs[0].Closed) {
+					v.Fail("C05.inflight", "readmeta/lost", "a metadata item was queued in the downstream when the link died; the read issued during the outage returned %v and no read after the recovery returned the item (got %q): it was dropped", w.inflErr, w.readRes)
 				}
 			case "read":
 				if w.readRes != "first" && w.readRes != "again" && w.cuts <= 1 {
